@@ -7,7 +7,9 @@ A per-property module harness/cXX.py defines
 
 and ./check calls common.main(module).  The verdict logic lives here, once.
 """
+import atexit
 import fcntl
+import shutil
 import hashlib
 import json
 import os
@@ -141,15 +143,19 @@ class LeanResult:
         return out
 
 
-def lake(args, timeout=3000, before=None):
+def lake(args, timeout=3000, before=None, after=None):
     """lake under an exclusive lock (several checks / agents may share the build dir); `before` (e.g. the table
-    extraction) runs under the same lock so that Generated/*.lean and the build belong to the same repo tree"""
+    extraction) runs under the same lock so that Generated/*.lean and the build belong to the same repo tree;
+    `after(returncode)` (axiom audit, private copy of the driver) runs under it too, so that what is audited and
+    what is run is what this call built - not what a concurrent check of another tree builds a moment later"""
     os.makedirs(os.path.join(LEAN, '.lake'), exist_ok=True)
     with open(os.path.join(LEAN, '.lake', 'verif.lock'), 'w') as lk:
         fcntl.flock(lk, fcntl.LOCK_EX)
         pre = before() if before is not None else None
         p = subprocess.run(['lake'] + args, cwd=LEAN, stdout=subprocess.PIPE, stderr=subprocess.STDOUT,
                            text=True, timeout=timeout)
+        if after is not None:
+            after(p.returncode)
     if before is not None:
         return p.returncode, p.stdout, pre
     return p.returncode, p.stdout
@@ -172,38 +178,24 @@ def model_sources(prop):
     return seen
 
 
-def lean_check(prop, thorough=False):
-    """extract tables, build the property's proof module + driver, hygiene grep, axiom audit"""
-    t0 = time.time()
-    r = LeanResult()
-    sys.path.insert(0, os.path.join(VERIF, 'tools'))
-    import extract
-    rc, log, (rc_all, r.extract_report) = lake(['build', 'Proofs.Props.' + prop, 'drv_' + prop.lower()],
-                                               before=lambda: extract.main(REPO))
-    r.files = model_sources(prop)
-    # an extractor that fails matters to this property only if it produces a Generated table this property imports
-    needed = {m.split('.')[-1] + '.lean' for m in r.files if m.startswith('Pywbem.Generated.')}
-    r.extract_rc = 0
-    for fn, rep in r.extract_report.items():
-        if isinstance(rep, dict) and 'error' in rep:
-            try:
-                with open(os.path.join(VERIF, 'tools', 'extractors', fn)) as f:
-                    outs = set(re.findall(r"['\"]([A-Za-z0-9_]+\.lean)['\"]", f.read()))
-            except OSError:
-                outs = set()
-            if not outs or (outs & needed):
-                r.extract_rc = 2
-    r.extract_report = {k: v for k, v in r.extract_report.items()
-                        if ('error' in v and r.extract_rc) or any(n in needed for n in v)}
-    r.build_ok = (rc == 0)
-    r.build_log = log
-    r.files = model_sources(prop)
-    for m in r.files:
-        path = os.path.join(LEAN, *m.split('.')) + '.lean'
-        with open(path) as f:
-            src = _strip_comments(f.read())
-        for mm in FORBIDDEN.finditer(src):
-            r.hygiene.append('%s: %s' % (m, mm.group(0).strip()))
+def _audit_and_pin(prop, r, rc, thorough):
+    """runs under the build lock, right after the build: private copy of the driver, axiom audit, leanchecker"""
+    if rc == 0:
+        src = os.path.join(LEAN, '.lake', 'build', 'bin', 'drv_' + prop.lower())
+        if os.path.exists(src):
+            d = os.path.join(LEAN, '.lake', 'run')
+            os.makedirs(d, exist_ok=True)
+            for fn in os.listdir(d):      # copies left behind by killed runs
+                fp = os.path.join(d, fn)
+                try:
+                    if time.time() - os.path.getmtime(fp) > 4 * 3600:
+                        os.unlink(fp)
+                except OSError:
+                    pass
+            dst = os.path.join(d, 'drv_%s.%d' % (prop.lower(), os.getpid()))
+            shutil.copy2(src, dst)
+            _PRIVATE_DRV[prop] = dst
+            atexit.register(lambda: os.path.exists(dst) and os.unlink(dst))
     # theorem names.  Authoritative list: every theorem constant that Lean's environment records for the property's
     # Props module(s) - enumerated by a generated audit file, so it does not depend on parsing the source text.  The
     # `theorem <name>` declarations found in the source (comments/strings/char literals removed by a lexer) are a
@@ -226,7 +218,7 @@ def lean_check(prop, thorough=False):
                 declared += _thms(_strip_comments(f.read()))
     r.theorems = {n: None for n in declared}
     r.aux_theorems = 0
-    if r.build_ok:
+    if rc == 0:
         audit = os.path.join(LEAN, '.lake', 'audit_%s_%d.lean' % (prop, os.getpid()))
         with open(audit, 'w') as f:
             f.write('import Lean\n' + ''.join('import %s\n' % m for m in mods))
@@ -265,8 +257,8 @@ def lean_check(prop, thorough=False):
                 bad = [a for a in ax if a not in ALLOWED_AXIOMS]
                 if bad:
                     r.bad_axioms[n] = bad
-    if thorough and r.build_ok:
-        mods = [m for m in r.files if not m.startswith('Driver.')]
+    if thorough and rc == 0:
+        mods = [m for m in model_sources(prop) if not m.startswith('Driver.')]
         try:
             p = subprocess.run(['lake', 'env', 'leanchecker'] + mods, cwd=LEAN, stdout=subprocess.PIPE,
                                stderr=subprocess.STDOUT, text=True, timeout=1500)
@@ -276,12 +268,51 @@ def lean_check(prop, thorough=False):
         except Exception as e:  # tool failure is not a verdict
             r.leanchecker = None
             r.build_log += '\nleanchecker not run: %r' % (e,)
+
+
+def lean_check(prop, thorough=False):
+    """extract tables, build the property's proof module + driver, hygiene grep, axiom audit"""
+    t0 = time.time()
+    r = LeanResult()
+    sys.path.insert(0, os.path.join(VERIF, 'tools'))
+    import extract
+    rc, log, (rc_all, r.extract_report) = lake(['build', 'Proofs.Props.' + prop, 'drv_' + prop.lower()],
+                                               before=lambda: extract.main(REPO),
+                                               after=lambda rc_: _audit_and_pin(prop, r, rc_, thorough))
+    r.files = model_sources(prop)
+    # an extractor that fails matters to this property only if it produces a Generated table this property imports
+    needed = {m.split('.')[-1] + '.lean' for m in r.files if m.startswith('Pywbem.Generated.')}
+    r.extract_rc = 0
+    for fn, rep in r.extract_report.items():
+        if isinstance(rep, dict) and 'error' in rep:
+            try:
+                with open(os.path.join(VERIF, 'tools', 'extractors', fn)) as f:
+                    outs = set(re.findall(r"['\"]([A-Za-z0-9_]+\.lean)['\"]", f.read()))
+            except OSError:
+                outs = set()
+            if not outs or (outs & needed):
+                r.extract_rc = 2
+    r.extract_report = {k: v for k, v in r.extract_report.items()
+                        if ('error' in v and r.extract_rc) or any(n in needed for n in v)}
+    r.build_ok = (rc == 0)
+    r.build_log = log + r.build_log      # (_audit_and_pin may have appended audit / leanchecker output)
+    r.files = model_sources(prop)
+    for m in r.files:
+        path = os.path.join(LEAN, *m.split('.')) + '.lean'
+        with open(path) as f:
+            src = _strip_comments(f.read())
+        for mm in FORBIDDEN.finditer(src):
+            r.hygiene.append('%s: %s' % (m, mm.group(0).strip()))
     r.wall_s = time.time() - t0
     return r
 
 
+_PRIVATE_DRV = {}
+
+
 def driver_path(prop):
-    return os.path.join(LEAN, '.lake', 'build', 'bin', 'drv_' + prop.lower())
+    """the driver this run built (private copy made under the build lock), else the shared build output"""
+    return _PRIVATE_DRV.get(prop) or os.path.join(LEAN, '.lake', 'build', 'bin', 'drv_' + prop.lower())
 
 
 def run_driver(prop, requests, timeout=1200):
